@@ -168,7 +168,14 @@ func streamHview() {
 		edit("subject", func(s *hside) bool { s.cfg.Subject += ", OU=edited"; return true })
 		edit("subject-value", func(s *hside) bool { s.cfg.Subject = strings.Replace(s.cfg.Subject, "=", "=z", 1); return true })
 		edit("issuer", func(s *hside) bool { s.issuer = "another-ca"; return true })
-		edit("serial", func(s *hside) bool { s.cfg.Serial = s.cfg.Serial + 17; return true })
+		edit("serial", func(s *hside) bool {
+			if s.cfg.Serial > 1<<62 {
+				s.cfg.Serial -= 17
+			} else {
+				s.cfg.Serial += 17
+			}
+			return true
+		})
 		edit("issuer-uid", func(s *hside) bool { s.cfg.IssuerUID = "!binary:ZWRpdGVk"; return true })
 		edit("subject-uid", func(s *hside) bool { s.cfg.SubjectUID = "!binary:ZWRpdGVk"; return true })
 		edit("key-alg", func(s *hside) bool {
